@@ -492,8 +492,11 @@ async fn run(plan: FPlan) -> Obs {
             }
         }
     };
+    // sleeps round up to the timer wheel's millisecond: one pause per read of the client
+    let reads = resp_body_bytes(&plan).len() as u64 / plan.client_read_max.max(1) as u64 + 2_000;
+    let pause = if plan.client_read_gap_us > 0 { plan.client_read_gap_us.max(1_000) } else { 0 };
     let window = Duration::from_micros(
-        30_000_000 + plan.origin_cuts.len() as u64 * plan.origin_gap_us + 70_000 * (plan.client_read_gap_us + 1),
+        60_000_000 + plan.origin_cuts.len() as u64 * plan.origin_gap_us.max(1_000) + 2 * reads * pause,
     );
     let _ = tokio::time::timeout(window, client).await;
     tokio::time::sleep(Duration::from_secs(2)).await;
